@@ -86,10 +86,26 @@ def run_check(prop, tier, seed, replay=None):
         # ---- correspondence + monitor ------------------------------------------------------
         if info.driver_ok:
             ctx.driver = common.Driver()
-            if replay is not None:
-                mod.replay(ctx, json.load(open(replay)))
-            else:
-                mod.run(ctx)
+            try:
+                if replay is not None:
+                    mod.replay(ctx, json.load(open(replay)))
+                else:
+                    mod.run(ctx)
+            except common.InternalError:
+                raise
+            except Exception as e:  # noqa: BLE001
+                # an exception that comes out of /repo's code while the harness drives it in-process is a broken
+                # correspondence (the model says the call returns), not a machinery failure
+                tb = traceback.extract_tb(e.__traceback__)
+                src = os.path.join(common.REPO, "src")
+                if tb and any(fr.filename.startswith(src) for fr in tb):
+                    last = [fr for fr in tb if fr.filename.startswith(src)][-1]
+                    ctx.drift("in-process call of %s" % os.path.relpath(last.filename, src),
+                              "the real code raised %s: %s at %s:%d (%s)" % (
+                                  type(e).__name__, e, os.path.relpath(last.filename, src), last.lineno, last.name),
+                              {"traceback": traceback.format_exception(type(e), e, e.__traceback__)[-12:]})
+                else:
+                    raise
         else:
             broken.append(("driver", "the model no longer builds against the regenerated facts: "
                            + _build_excerpt(info.log)))
